@@ -21,11 +21,14 @@ package main
 // Every call and its answer is logged for spec/trace/TagTrace.tla.
 
 import (
+	"bytes"
 	"encoding/json"
 	"fmt"
 	"math"
 	"math/rand"
 	"os"
+	"os/exec"
+	"path/filepath"
 	"sort"
 	"strconv"
 	"strings"
@@ -350,6 +353,88 @@ func c15AssignCLIOnce(q []byte, refs [][]byte, taxa []int, parent []int, perm []
 	}
 }
 
+func c15min(a, b int) int {
+	if a < b {
+		return a
+	}
+	return b
+}
+
+func c15max(a, b int) int {
+	if a > b {
+		return a
+	}
+	return b
+}
+
+// c15IndexCmd runs the obirefidx COMMAND on the references of a case written as a FASTA file in which every second
+// reference already carries an index (a stale one, as left by an earlier indexing of a smaller data base), with the
+// taxonomy written as an NCBI dump; it returns, per reference number, the decoded index the command wrote.
+func c15IndexCmd(bindir, dir string, refs [][]byte, taxa []int, parent []int, rng *rand.Rand) (map[int][][]int, string) {
+	if err := os.MkdirAll(dir, 0o755); err != nil {
+		return nil, err.Error()
+	}
+	defer os.RemoveAll(dir)
+	d := &taxDef{Parent: parent, Rank: make([]string, len(parent)), Name: make([]string, len(parent)), Alias: [][]int{}}
+	for i := range parent {
+		d.Rank[i], d.Name[i] = "rk"+strconv.Itoa(i+1), "tx"+strconv.Itoa(i+1)
+	}
+	if err := writeDump(filepath.Join(dir, "dump"), d, rng); err != nil {
+		return nil, err.Error()
+	}
+	var fa bytes.Buffer
+	for i, r := range refs {
+		ann := map[string]any{"taxid": taxa[i]}
+		if i%2 == 1 {
+			ann["obitag_ref_index"] = map[string]string{"0": strconv.Itoa(taxa[i]) + "@stale@rk"}
+		}
+		js, _ := json.Marshal(ann)
+		fmt.Fprintf(&fa, ">r%d %s\n%s\n", i+1, js, r)
+	}
+	in := filepath.Join(dir, "refs.fasta")
+	if err := os.WriteFile(in, fa.Bytes(), 0o644); err != nil {
+		return nil, err.Error()
+	}
+	cmd := exec.Command(filepath.Join(bindir, "obirefidx"), "-t", filepath.Join(dir, "dump"), "--max-cpu", "2", in)
+	var so, se bytes.Buffer
+	cmd.Stdout, cmd.Stderr = &so, &se
+	if err := cmd.Run(); err != nil {
+		tail := se.String()
+		if len(tail) > 300 {
+			tail = tail[len(tail)-300:]
+		}
+		return nil, "obirefidx: " + err.Error() + ": " + tail
+	}
+	out := map[int][][]int{}
+	for _, line := range strings.Split(so.String(), "\n") {
+		if !strings.HasPrefix(line, ">r") {
+			continue
+		}
+		name, rest, _ := strings.Cut(line[1:], " ")
+		k, err := strconv.Atoi(name[1:])
+		if err != nil {
+			return nil, "unexpected record " + name
+		}
+		var ann map[string]any
+		if i := strings.Index(rest, "{"); i < 0 || json.Unmarshal([]byte(rest[i:strings.LastIndex(rest, "}")+1]), &ann) != nil {
+			return nil, "record " + name + " has no JSON annotations: " + rest
+		}
+		idx, _ := ann["obitag_ref_index"].(map[string]any)
+		pairs := [][]int{}
+		for ds, v := range idx {
+			dd, e1 := strconv.Atoi(ds)
+			id, e2 := strconv.Atoi(strings.Split(fmt.Sprint(v), "@")[0])
+			if e1 != nil || e2 != nil {
+				return nil, fmt.Sprintf("record %s: index entry %q: %v", name, ds, v)
+			}
+			pairs = append(pairs, []int{dd, id})
+		}
+		sort.Slice(pairs, func(i, j int) bool { return pairs[i][0] < pairs[j][0] })
+		out[k-1] = pairs
+	}
+	return out, ""
+}
+
 // c15LookupIn reads a decoded index the way Identify does: entry of the largest recorded distance <= d,
 // failing that of the smallest recorded distance; 0 when the index is empty.  (An observation of the
 // real output, not an expectation.)
@@ -602,6 +687,45 @@ func c15Replay(env *Env) {
 					fail("C15.cli.taxon", fmt.Sprintf("CLIAssignTaxonomy (%s, unknown-taxid references at %v) assigns taxon %d; Identify on the database without them is expected to give %d (best references %v at distance %d)", ord, ghosts, taxid, c.Assigned, want, c.D))
 				default:
 					env.ok("cli." + gname)
+				}
+			}
+		}
+		// the obirefidx command on the same data base, every second reference carrying a stale index already
+		if bd := env.opt("bindir", ""); bd != "" && len(c.Parent) > 0 && ci%env.optInt("cmdevery", 40) == 0 {
+			got, problem := c15IndexCmd(bd, filepath.Join(os.TempDir(), fmt.Sprintf("c15cmd-%d-%d", os.Getpid(), ci)), refs, c.Taxa, c.Parent,
+				rand.New(rand.NewSource(env.seed*31+int64(ci))))
+			if problem != "" {
+				fail("C15.cmd.index.crash", problem)
+			} else {
+				for k := 0; k < n; k++ {
+					pairs, ok := got[k]
+					if !ok {
+						fail("C15.cmd.index.entry", fmt.Sprintf("obirefidx wrote no record for reference %d", k+1))
+						break
+					}
+					lcaw := c.Lcaw[k]
+					good := true
+					for _, p := range pairs {
+						d := c15min(c15max(p[0], 0), len(lcaw)-1)
+						if p[0] < 0 || p[1] != lcaw[d] {
+							good = false
+							fail("C15.cmd.index.entry", fmt.Sprintf("obirefidx (reference %d, which %s an index in the input file) maps distance %d to taxon %d; the LCA of the taxa of all references within that distance is %d (index %v)",
+								k+1, map[bool]string{true: "already carried", false: "did not carry"}[k%2 == 1], p[0], p[1], lcaw[d], pairs))
+							break
+						}
+					}
+					if good {
+						for d := 0; d < len(refs[k]) && d < len(lcaw); d++ {
+							if g := c15LookupIn(pairs, d); g != lcaw[d] {
+								good = false
+								fail("C15.cmd.index.lookup", fmt.Sprintf("obirefidx (reference %d) index %v read at distance %d gives taxon %d; the LCA of all references within %d is %d", k+1, pairs, d, g, d, lcaw[d]))
+								break
+							}
+						}
+					}
+					if good {
+						env.ok("cmd.index")
+					}
 				}
 			}
 		}
